@@ -103,6 +103,29 @@ def replay_case(case):
         if not np.array_equal(X, X0):
             fails.append(("input_data_modified", {"cost": name}))
             X = X0.copy()
+        # the same matrix recorded in a SMALL unit (u = 2^-13: exact in floating point).  The definition gives
+        # u^2 * C for the squared-error cost and C + (e-s) ln u^2 per column (times p for the joint covariance) for
+        # the optimal-parameter Gaussian costs; slices with a zero variance are left to the unit-scale run above
+        if name in ("L2Cost()", "GaussianVarCost()", "GaussianCovCost()"):
+            u = 2.0 ** -13
+            good = [iv for iv in ivs if expected[iv] is not SINGULAR and np.all(np.var(X0[iv[0]:iv[1]], axis=0) > 0)]
+            if good:
+                try:
+                    vals = mk().fit(X0 * u).evaluate(np.array(good))
+                    for row, iv in zip(vals, good):
+                        ln = iv[1] - iv[0]
+                        if name == "L2Cost()":
+                            got, exp = [float(x) / (u * u) for x in row], [float(w) for w in expected[iv]]
+                        else:
+                            k = p if name == "GaussianCovCost()" else 1
+                            got, exp = [float(x) for x in row], [float(w) + ln * k * math.log(u * u) for w in expected[iv]]
+                        if not all(math.isfinite(x) and close(x, w) for x, w in zip(got, exp)):
+                            fails.append(("value_differs_from_definition",
+                                          {"cost": name + " on data in the unit 2^-13", "interval": list(iv), "got": got,
+                                           "definition": exp, "stats": stat_at(case, *iv)}))
+                            break
+                except Exception as e:
+                    fails.append(("evaluate_raises", {"cost": name + " on data in the unit 2^-13", "error": repr(e)[:200]}))
     return fails, nontrivial or len({tuple(r) for r in case["X"]}) > 1
 
 
